@@ -26,4 +26,24 @@ PROPS = {
                   "sonyflake id layout (time<<24 | sequence<<16 | machine) is modelled by flake_id; the correspondence checks id mod 2^16 = worker number on ids produced by child processes"],
         assumptions=["list results are compared in store natural order by the correspondence and as multisets by the monitor"],
     ),
+    "C01": dict(
+        families=[dict(name="tree"), dict(name="engine", args=["-x", ",diamond,precheck,cmdrace,crash"], recode={"30": "101"})],
+        search=True,
+        partial=["theorems cover part A (tree walk hands out only tasks whose dependencies are done, for every tree and status assignment); the engine-level invariant (knowledge soundness + finality) is checked by the journal monitor, not proved"],
+        modelled=['the engine LTS itself is not modelled in Coq yet: the engine-level statement is the Coq-defined journal monitor (EngineMon), evaluated on journals of the real parser/executor/commander run under a controlled scheduler; the persisted state at each journal position is reconstructed with StoreModel and every store reply in the journal is checked against StoreModel (correspondence)', 'Go scheduler and sync primitives, goroutine interleavings finer than store calls / action-phase boundaries'],
+    ),
+    "C03": dict(
+        families=[dict(name="tree"), dict(name="engine", args=["-x", ",diamond,precheck,cancel,cmdrace"], recode={"30": "103"})],
+        search=True,
+        partial=["theorems: verdict witnesses of ComputeStatus for every tree; settling/containment judged by the journal monitor"],
+        refuted=["pinned code: the cmd watcher's {status: running, cmd: nil} patch could overwrite the verdict (lost update) - repaired by fix commit fb3a28e",
+                 "known finding: a retry/continue command that matches no eligible task re-marks the instance running and nothing settles it (pinned by the existing test TestDefParser_ParseCmd/retry_not_failed, so not repaired)"],
+        modelled=['the engine LTS itself is not modelled in Coq yet: the engine-level statement is the Coq-defined journal monitor (EngineMon), evaluated on journals of the real parser/executor/commander run under a controlled scheduler; the persisted state at each journal position is reconstructed with StoreModel and every store reply in the journal is checked against StoreModel (correspondence)', 'Go scheduler and sync primitives, goroutine interleavings finer than store calls / action-phase boundaries'],
+    ),
+    "C13": dict(
+        families=[dict(name="precheck"), dict(name="engine", args=["-x", "precheck,precheck,,cmdrace"], recode={"30": "113"})],
+        search=True,
+        partial=["theorems: skipped enables dependents like success, blocked enables nothing (tree level); 'no phase runs for a skipped/blocked task until continue' judged by the journal monitor"],
+        modelled=['the engine LTS itself is not modelled in Coq yet: the engine-level statement is the Coq-defined journal monitor (EngineMon), evaluated on journals of the real parser/executor/commander run under a controlled scheduler; the persisted state at each journal position is reconstructed with StoreModel and every store reply in the journal is checked against StoreModel (correspondence)', 'Go scheduler and sync primitives, goroutine interleavings finer than store calls / action-phase boundaries'],
+    ),
 }
